@@ -29,6 +29,16 @@ fn main() {
         Some("check") if args.len() >= 4 => runner::check(&args[2], &args[3]),
         Some("replay") if args.len() >= 3 => runner::replay(&args[2]),
         Some("selftest") => selftest::selftest(args.get(2).and_then(|s| s.parse().ok()).unwrap_or(300)),
+        Some("scenario") if args.len() >= 4 => {
+            // one boundary scenario (limits.rs), run and reported: msisim scenario <seed> <index>
+            let t = limits::scenario(args[2].parse().unwrap(), args[3].parse().unwrap());
+            let r = runner::run_one(&t);
+            for v in r.violations.iter() {
+                println!("violation: check={} site={} op_id={} message={}", v.check, v.site, v.op_id, &v.message.chars().take(300).collect::<String>());
+            }
+            println!("ops={} violations={}", t.ops.len(), r.violations.len());
+            0
+        }
         Some("gen") if args.len() >= 6 => {
             let p = gen::Profile::parse(&args[3]).expect("profile");
             let t = gen::generate(&args[2], p, args[4].parse().unwrap(), args[5].parse().unwrap());
